@@ -5,6 +5,8 @@ Each entry: name -> (callable(recv, variant, world) performing the call, allowed
 A call that does not raise is a *successful* call (allowed by C09: "either succeeds or raises only
 the documented error type"); it is then judged like any other step by the health invariant.
 """
+import re
+
 from . import lib
 
 AnsiString, AnsiStr = lib.AnsiString, lib.AnsiStr
@@ -254,6 +256,29 @@ def _huge_tabsize(v, var, w, op):
     return v.expandtabs(_HUGE[var % len(_HUGE)], **_inplace_kw(v, op.get('ip')))
 
 
+_BAD_REGEX = ['(', '[a', 'a**', '(?P<x', '\\', '*a', 'a{2,1}', '(?<=a+)b', ')', '(?P<n>a)(?P<n>b)', '\\1(a)?(', '(?z)']
+
+
+def _bad_regex(v, var, w, op):
+    """A pattern the re module rejects: format_matching / unformat_matching must fail the way re.compile does
+    (re.error, the error Python itself raises for that pattern) before anything is changed."""
+    pat = _BAD_REGEX[var % len(_BAD_REGEX)]
+    m = [v.format_matching, v.unformat_matching][(var // len(_BAD_REGEX)) % 2]
+    kw = {'regex': True}
+    if (var // 24) % 2:
+        kw['match_case'] = True
+    if (var // 48) % 2:
+        kw['count'] = 2
+    return m(pat, 'red', **kw)
+
+
+def _encode_bad(v, var, w, op):
+    """Unknown codec / error handler, or a codec that cannot represent the text: str.encode raises LookupError or
+    UnicodeEncodeError (a ValueError) for the same call (or succeeds)."""
+    a = [('no-such-codec',), ('utf-8', 'no-such-handler'), ('ascii',), ('latin-1', 'strict'), ('utf-16', 'strict')][var % 5]
+    return v.encode(*a)
+
+
 IDX = (IndexError,)
 # str raises OverflowError or MemoryError for an unbuildable width depending only on its magnitude
 # (beyond / below sys.maxsize); center() halves the width first, so the two are not told apart here
@@ -275,12 +300,14 @@ TABLE = {
     'huge_width': (_huge_width, OVF),
     'huge_spec_width': (_huge_spec_width, TV),
     'huge_tabsize': (_huge_tabsize, OVF),
+    'bad_regex': (_bad_regex, (re.error, ValueError)),
+    'encode_bad': (_encode_bad, (LookupError, ValueError)),
 }
 NAMES = sorted(TABLE)
 
 # calls whose in-place form exists: a raised error must leave the receiver unchanged
 MAY_MUTATE = {'apply_bad_setting', 'remove_bad_setting', 'fmatch_bad_setting', 'unfmatch_bad_setting', 'fillchar',
-              'huge_width', 'huge_tabsize'}
+              'huge_width', 'huge_tabsize', 'bad_regex'}
 
 # Wrong-*type* arguments are deliberately not injected: C09 quantifies over "arguments of the
 # documented types", so nothing is promised for them (the helper functions above that build such
